@@ -754,6 +754,58 @@ func runC09(r *core.Run) {
 			r.Violate("built-permissions", fmt.Sprintf("%s: %o", m.key(), n.Permissions()), nil)
 		}
 	}
+	c09BuilderRoutes(r)
+}
+
+// c09BuilderRoutes: the alternative helper routes of the builder API produce the
+// same message as the primitive ones: PermissionsString (octal with a leading
+// 0, decimal otherwise) vs Permissions, Time(time.Time) vs Seconds +
+// FractionalNanoseconds.
+func c09BuilderRoutes(r *core.Run) {
+	build := func(f func(b *builder.Builder)) (string, string) {
+		var n data.UnixFSData
+		var err error
+		if pnk, pv := core.Guard(func() {
+			n, err = builder.BuildUnixFS(func(b *builder.Builder) { builder.DataType(b, 2); f(b) })
+		}); pnk {
+			return "", fmt.Sprintf("panic: %v", pv)
+		}
+		if err != nil {
+			return "", "error: " + err.Error()
+		}
+		return fmt.Sprintf("%x", data.EncodeUnixFSData(n)), ""
+	}
+	for mode := 0; mode <= 0xFFF; mode++ {
+		mode := mode
+		want, werr := build(func(b *builder.Builder) { builder.Permissions(b, mode) })
+		strs := []string{fmt.Sprintf("0%o", mode), fmt.Sprintf("00%o", mode)}
+		if mode != 0 {
+			strs = append(strs, fmt.Sprintf("%d", mode))
+		}
+		for _, ms := range strs {
+			ms := ms
+			got, gerr := build(func(b *builder.Builder) { builder.PermissionsString(b, ms) })
+			r.Evaluations.Add(1)
+			if got != want || gerr != werr {
+				r.Violate("builder-route permissions-string", fmt.Sprintf("PermissionsString(%q) builds %s %s, Permissions(%#o) builds %s %s", ms, got, gerr, mode, want, werr), nil)
+			}
+		}
+	}
+	for _, sec := range []int64{0, 1, -1, 1 << 31, 1700000000, math.MinInt64 / 4} {
+		for _, ns := range []int32{0, 1, 999999999, 500000000} {
+			sec, ns := sec, ns
+			want, werr := build(func(b *builder.Builder) {
+				builder.Mtime(b, func(tb builder.TimeBuilder) { builder.Seconds(tb, sec); builder.FractionalNanoseconds(tb, ns) })
+			})
+			got, gerr := build(func(b *builder.Builder) {
+				builder.Mtime(b, func(tb builder.TimeBuilder) { builder.Time(tb, time.Unix(sec, int64(ns))) })
+			})
+			r.Evaluations.Add(1)
+			if got != want || gerr != werr {
+				r.Violate("builder-route time", fmt.Sprintf("Time(Unix(%d,%d)) builds %s %s, Seconds+FractionalNanoseconds builds %s %s", sec, ns, got, gerr, want, werr), nil)
+			}
+		}
+	}
 }
 
 func strp(s string) *string { return &s }
